@@ -22,7 +22,9 @@
 //!    ties: any). The doc comment orders run before majority, the code majority before run: both
 //!    accepted, the discrepancy is only counted (`obs_rule_order_*`). probation 0 = documented
 //!    legacy mode: first matching packet commits its own source. The flag must not go up on a
-//!    packet that is not matching RTP. Committing *late* w.r.t. an applicable rule is only counted.
+//!    packet that is not matching RTP. A packet on which the marker or the run rule selects a source must
+//!    commit (documented: rules evaluated on every new RTP packet; never seen otherwise on the unchanged tree
+//!    in 2 x 10^9 enumerated sequences) - `commit.late:*`.
 //!  * stickiness – from the commit on, no packet of any kind from any address and no pair update
 //!    changes the RTP address until a reset / retarget symbol (which must clear the flag).
 //!  * RTCP – an RTCP packet never changes the RTP address; RTCP packets change the RTCP address
@@ -380,6 +382,7 @@ enum Viol {
     CommitNoRule,
     CommitWrongWinner(&'static str, &'static str),
     CommitDeadline(&'static str),
+    CommitLate(&'static str),
     CommitOnNonMatching(&'static str),
     RtcpSetUnconfigured,
     RtcpRelatched,
@@ -399,6 +402,7 @@ impl Viol {
             Viol::CommitNoRule => "commit.no_rule".into(),
             Viol::CommitWrongWinner(r, g) => format!("commit.wrong_winner:applicable={r}:got={g}"),
             Viol::CommitDeadline(m) => format!("commit.deadline:{m}"),
+            Viol::CommitLate(r) => format!("commit.late:applicable={r}"),
             Viol::CommitOnNonMatching(k) => format!("commit.on_nonmatching:by={k}"),
             Viol::RtcpSetUnconfigured => "rtcp.set_unconfigured".into(),
             Viol::RtcpRelatched => "rtcp.relatched".into(),
@@ -417,6 +421,7 @@ impl Viol {
             Viol::CommitNoRule => "latch committed on a packet where no documented rule (marker / consecutive run / majority at the limit) applies".into(),
             Viol::CommitWrongWinner(r, g) => format!("latch committed to an address ({g}) that the applicable documented rule(s) [{r}] do not select"),
             Viol::CommitDeadline(m) => format!("latch not committed although the probation limit of matching packets was reached ({m})"),
+            Viol::CommitLate(r) => format!("latch not committed on the packet on which the documented {r} rule selects a source (the rules are documented as evaluated on every new RTP packet, the marker candidate as selected immediately)"),
             Viol::CommitOnNonMatching(k) => format!("latch flag went up while processing a {k} step (not RTP with the expected SSRC)"),
             Viol::RtcpSetUnconfigured => "RTCP packet set an RTCP destination although none was configured".into(),
             Viol::RtcpRelatched => "RTCP packets changed the RTCP destination more than once in one reset epoch".into(),
@@ -769,8 +774,13 @@ impl Oracle {
                                 "probation"
                             }));
                         }
+                        // The doc comment: "Decision rules (evaluated in order on every new RTP
+                        // packet)", rule 1 "is selected immediately".  A packet on which the marker
+                        // or the run rule selects a source therefore commits; deferring the decision
+                        // lets a later run / marker from another address take the destination.
                         if mk != 0 || run != 0 {
                             s.c[C_OBS_LATE_COMMIT] += 1;
+                            return Some(Viol::CommitLate(if mk != 0 { "marker" } else { "run" }));
                         }
                     }
                 }
